@@ -627,12 +627,32 @@ func (l *LogVal) lenT() *sx.T {
 }
 
 func (l *LogVal) atT(j *sx.T) *sx.T {
+	// an index that is syntactically base + k names the k-th item appended in this activation
+	if k, ok := offsetOf(j, l.Base); ok && k >= 0 && k < int64(len(l.Items)) {
+		return EventTerm(l.Items[k], l.Items[k].Sorts)
+	}
 	t := sx.App("at_"+l.Base, j)
 	for k, it := range l.Items {
 		sorts := it.Sorts
 		t = sx.Ite(sx.App("=", j, sx.App("+", sx.Atom(l.Base), sx.Int(int64(k)))), EventTerm(it, sorts), t)
 	}
 	return t
+}
+
+// offsetOf recognises the terms base, (+ base k) and (+ (+ base k1) k2) with numerals k.
+func offsetOf(j *sx.T, base string) (int64, bool) {
+	if j.IsAtom() {
+		return 0, j.A == base
+	}
+	if j.Head() == "+" && len(j.L) == 3 && j.L[2].IsAtom() {
+		var k int64
+		if _, err := fmt.Sscanf(j.L[2].A, "%d", &k); err == nil && fmt.Sprint(k) == j.L[2].A {
+			if b, ok := offsetOf(j.L[1], base); ok {
+				return b + k, true
+			}
+		}
+	}
+	return 0, false
 }
 
 var logEqN int
@@ -815,6 +835,9 @@ func (e *Env) call(x *ECall) TV {
 		if v.Ty.K == KList {
 			return TV{T: sx.App(v.Ty.Name+"_len", v.T), Ty: I}
 		}
+		if v.Ty.K == KMap {
+			return TV{T: sx.App("map_len", v.T), Ty: I}
+		}
 		return TV{T: sx.App("str.len", toBytes(v)), Ty: I}
 	case x.Fn == "push":
 		// the list obtained by appending one element (what Go's append does to a non-byte slice)
@@ -857,9 +880,9 @@ func (e *Env) call(x *ECall) TV {
 		return TV{T: sx.App("str.prefixof", toBytes(e.Tr(x.Args[0])), toBytes(e.Tr(x.Args[1]))), Ty: B}
 	case x.Fn == "W":
 		return TV{T: sx.App("W", toBytes(e.Tr(x.Args[0]))), Ty: B}
-	case x.Fn == "cres":
+	case x.Fn == "cres" || x.Fn == "cres2":
 		m := x.Args[0].(*EStr).V
-		fn := "cres_" + strings.NewReplacer(".", "_", "-", "_").Replace(m)
+		fn := x.Fn + "_" + strings.NewReplacer(".", "_", "-", "_").Replace(m)
 		Declare("cres:"+fn, fmt.Sprintf("(declare-fun %s (Int) Any)", fn))
 		return TV{T: sx.App(fn, e.Tr(x.Args[1]).T), Ty: Type{K: KAny}}
 	case x.Fn == "asint":
